@@ -236,7 +236,7 @@ func c15gExtKeyUsages(c *eng.Ctx) {
 		c.Floor(f, "flag bits", n, 4)
 		for _, cl := range eng.Calls(f, `^pki\.parseExtKeyUsagesValue$`) {
 			c.Clause("R5", "C15.6")
-			c.Prov(f, "named usages parsed", cl, cl.Common().Args[1], `^field:role\.ExtKeyUsage$`)
+			c15Prov(c, f, "named usages parsed", cl, cl.Common().Args[1], `^field:role\.ExtKeyUsage$`)
 		}
 	}
 }
@@ -277,8 +277,8 @@ func c15gNotBefore(c *eng.Ctx) {
 		c15unreach(c, f, "on{not_before_bound = duration} success needs not_before >= now - duration", eng.Query{StartEdges: da, Blocked: eng.BoolEdges(before, false), Target: eng.IsTarget(succ)}, before.Pos(),
 			"the duration arm succeeds only across the edge on which the requested not_before is not before now - not_before_duration", "with not_before_bound=duration a request-supplied not_before can be accepted without the comparison against now - not_before_duration")
 		c.Clause("R5", "C15.4")
-		c.Prov(f, "not_before compared with the bound", before, before.Call.Args[0], `^call:time\.Parse#0$`)
-		c.Prov(f, "bound of the duration arm", before, before.Call.Args[1], `^call:time\.\(Time\)\.Add$`)
+		c15Prov(c, f, "not_before compared with the bound", before, before.Call.Args[0], `^call:time\.Parse#0$`)
+		c15Prov(c, f, "bound of the duration arm", before, before.Call.Args[1], `^call:time\.\(Time\)\.Add$`)
 	}
 }
 
@@ -293,10 +293,10 @@ func c15gIssuerUsage(c *eng.Ctx) {
 		eu := eng.Calls(f, `^pki\.\(issuerEntry\)\.EnsureUsage$`)
 		if c.Floor(f, "EnsureUsage call", len(eu), 1) {
 			c.Clause("R2", "C15.8")
-			c.Cut(f, "signing bundle returned", eng.SuccessReturns(f, 1), eng.GCallOK(f, `^pki\.\(issuerEntry\)\.EnsureUsage$`), nil)
+			c.Cut(f, "signing bundle returned", eng.SuccessReturns(f, 1), c15GCallOK(f, `^pki\.\(issuerEntry\)\.EnsureUsage$`), nil)
 			c.Clause("R5", "C15.8")
 			for _, e := range eu {
-				c.Prov(f, "usage the issuer is checked for", e, e.Common().Args[1], `^param:usage$`)
+				c15Prov(c, f, "usage the issuer is checked for", e, e.Common().Args[1], `^param:usage$`)
 			}
 		}
 	}
@@ -312,7 +312,7 @@ func c15gIssuerUsage(c *eng.Ctx) {
 		cs := eng.Calls(f, h.callee)
 		if c.Floor(f, "hand-on call", len(cs), 1) {
 			for _, cl := range cs {
-				c.Prov(f, "usage handed on", cl, cl.Common().Args[2], `^param:usage$`)
+				c15Prov(c, f, "usage handed on", cl, cl.Common().Args[2], `^param:usage$`)
 			}
 		}
 	}
@@ -354,7 +354,7 @@ func c15gVerbatimRoleTTL(c *eng.Ctx) {
 				continue
 			}
 			n++
-			c.Prov(f, "sign-verbatim role "+fld, st, st.Val, `^field:role\.`+fld+`$`)
+			c15Prov(c, f, "sign-verbatim role "+fld, st, st.Val, `^field:role\.`+fld+`$`)
 		}
 		c.Floor(f, "store of the sign-verbatim role's "+fld, n, 1)
 	}
@@ -474,7 +474,7 @@ func c15gSmallValidators(c *eng.Ctx) {
 				}
 			}
 			for _, gl := range eng.Calls(f, `go-glob\.Glob$`) {
-				c.Prov(f, "URI matched", gl, gl.Common().Args[1], `^param:uri$`)
+				c15Prov(c, f, "URI matched", gl, gl.Common().Args[1], `^param:uri$`)
 			}
 			c.Clause("R2", "C15.3")
 		}
@@ -751,4 +751,95 @@ func c15SiteAts(ss []c15Site) []ssa.Instruction {
 		}
 	}
 	return out
+}
+
+// ---------------------------------------------------------------------------
+// call-result origins and success edges through a local forwarding closure (ROBUST.md n8 idiom:
+// `newSerial := func() (*big.Int, error) { return GenerateSerialNumber() }; n, err := newSerial()`).
+// Both helpers stay inside the function and its closures: a rule that says "THIS call's result is
+// what is used / THIS call succeeded" must not accept a package helper that merely performs the call
+// somewhere inside.
+
+// c15GCallOK is eng.GCallOK (same description, hence the same obligation keys) over the calls
+// of pat that f performs directly, through a bound method value, or through a closure of f that
+// returns a nil error only across the call's own success.
+func c15GCallOK(f *ssa.Function, pat string) eng.Guard {
+	return nfOKOf("success edge of "+pat, nfSitesLocal(f, pat))
+}
+
+// c15Origins is nfOrigins (captured variables followed) with the result of a call of a local
+// closure replaced by the origins of what that closure returns at the same result index.
+func c15Origins(fn *ssa.Function, v ssa.Value) []eng.Origin {
+	var out []eng.Origin
+	seen := map[ssa.Value]bool{}
+	var walk func(v ssa.Value, depth int)
+	walk = func(v ssa.Value, depth int) {
+		if v == nil || seen[v] {
+			return
+		}
+		seen[v] = true
+		for _, o := range nfOrigins(v, nil) {
+			if o.Kind == "call" && depth < 4 {
+				var call *ssa.Call
+				idx := 0
+				switch x := o.Val.(type) {
+				case *ssa.Extract:
+					call, _ = x.Tuple.(*ssa.Call)
+					idx = x.Index
+				case *ssa.Call:
+					call = x
+				}
+				if call != nil && !call.Call.IsInvoke() {
+					if g, _ := nfFuncValue(call.Call.Value); g != nil && g.Parent() != nil && len(g.Blocks) > 0 && eng.TopFunc(g) == eng.TopFunc(fn) {
+						n := 0
+						for _, r := range eng.Returns(g) {
+							if idx < len(r.Results) {
+								n++
+								walk(r.Results[idx], depth+1)
+							}
+						}
+						if n > 0 {
+							continue
+						}
+					}
+				}
+			}
+			out = append(out, o)
+		}
+	}
+	walk(v, 0)
+	return out
+}
+
+// c15Prov is c.Prov over c15Origins: the same obligation, the same words on failure.
+func c15Prov(c *eng.Ctx, fn *ssa.Function, site string, at ssa.Instruction, v ssa.Value, allowed ...string) bool {
+	if v == nil || fn == nil {
+		return c.Prov(fn, site, at, v, allowed...)
+	}
+	if ok, _, _ := eng.OriginsMatch(v, allowed...); ok {
+		return c.Prov(fn, site, at, v, allowed...)
+	}
+	var res []*regexp.Regexp
+	for _, a := range allowed {
+		res = append(res, regexp.MustCompile(a))
+	}
+	var all []string
+	for _, o := range c15Origins(fn, v) {
+		d := o.Kind + ":" + o.Desc
+		all = append(all, d)
+		m := false
+		for _, re := range res {
+			if re.MatchString(d) {
+				m = true
+			}
+		}
+		if !m {
+			return c.Prov(fn, site, at, v, allowed...) // reports the violation in the usual words
+		}
+	}
+	if len(all) == 0 {
+		return c.Prov(fn, site, at, v, allowed...)
+	}
+	c.OK(fn, "prov{"+site+"}", at.Pos(), "origins ["+strings.Join(all, " ")+"] ⊆ allowed ["+strings.Join(allowed, " ")+"] (through a local closure / captured variable)")
+	return true
 }
